@@ -149,7 +149,7 @@ class _Plain(object):
 
 def _nonsized(kind, n):
     if kind == 4:
-        return _INTS[n + 11] + 0.5        # realise n: float formatting is C code
+        return 0.5 if n > 0 else (-1.5 if n < 0 else 1e+20)   # float formatting is C code: concrete floats by case
     return [n, None, True, False, 0.5, _Plain(), -n][kind]
 
 
